@@ -235,7 +235,7 @@ static void worker(int wid, struct result *r, struct result *r2)
 			v->w = w;
 			v->status = st;
 			v->steps = r->steps;
-			snprintf(v->msg, sizeof(v->msg), "outcome=%#lx switches=%u", r->outcome, r->nswitch);
+			snprintf(v->msg, sizeof(v->msg), "outcome=%#lx switches=%u %s", r->outcome, r->nswitch, r->sample);
 		}
 		if (is_violation(st)) {
 			int dup = 0;
